@@ -200,15 +200,17 @@ class C13(Property):
             'A case is non-trivial when it is a distinct JSON value whose formula text has at least two characters.')
     assumptions = ('the AST renderer / denotation (tools/harness/formula_gen.py = Model/FormulaSpec.lean) and the un-presentation maps re-stated in '
                    'tools/harness/c13.py (from the property text, not from chempy tables) are the specification',
-                   'outside the modelled domain, excluded from generation: non-ASCII digits, blanks / "_" inside the charge number',
+                   'outside the modelled domain, excluded from generation: non-ASCII decimal digits (the parser\'s \\d accepts them, the renderers\' [0-9] does not subscript them: known limitation, coordinator decision round 9), blanks / "_" inside the charge number',
                    're (digit-run substitution, brace escaping) and str.replace are hand-modelled and tied by this correspondence only',
                    'reaction printing: int and Fraction coefficients and inactive groups are modelled (float coefficients: oracle only), no parameter, no name (C12 covers those)',
                    'the two inverse presentation maps (Python, for the oracle; Lean unX, specification) are only compared on real outputs for input text over ASCII + the middle dot; on input that already contains sub/superscript code points or markup (H²O) they differ and are unspecified')
     clauses_without_theorem = (
         'printed reactions with parameter / name (with_param, with_name) in the three formats: not modelled in C13 (the str printer\'s parameter text is C12/C20)',
         'float coefficients in printed reactions (str(0.5)): oracle only; int and Fraction coefficients have the theorem reaction_print_spec',
-        'suffixes= / phases outside the vocabulary (s) (l) (g) (aq) (e.g. "(cr)", custom strings) and a written suffix that phases + (aq) does not list: '
-        'kept-verbatim and phase index decided by correspondence (ops fmt, species) only',
+        'suffixes= / phases outside the vocabulary (s) (l) (g) (aq) (e.g. "(cr)", custom strings, a bare str iterated by characters) and a written suffix that '
+        'phases + (aq) does not list: no theorem; decided by correspondence (ops fmt, species) and, since round 9, by the oracle (suffix verbatim, names undo to the '
+        'canonical text, composition = written one, only ValueError/ParseException accepted as refusal)',
+        'counts written with non-ASCII decimal digits (H٢O: parsed as 2 but not subscripted): outside the generated domain by decision (documented limitation)',
         'LaTeX / Unicode / HTML output for text outside the C01 grammar (mutated strings, rejections): correspondence only',
         'freshly created Substance / Species objects share no mutable state with earlier ones and are unaffected by earlier keyword arguments or in-place edits '
         '(operation histories): oracle only — the Lean model is a pure function, aliasing is not expressible in it',
@@ -817,6 +819,8 @@ class C13(Property):
             return 'Species.from_formula(%r, %r) raised %s' % (s, phases, o[1])
         if o.phase_idx != want:
             return 'Species.from_formula(%r, %r).phase_idx = %r, the suffix selects %r' % (s, phases, o.phase_idx, want)
+        if c.get('phases_str') is not None:
+            return None                    # characters of a bare str are stripped as "suffixes" (the `a` of `Na`): only the index is claimed there
         want_canon = fg.render(canon_ast(f))                    # whatever the phases: names undo to the canonical text, composition is the written one
         for w in FORMATS:
             if UN[w](getattr(o, w + '_name')) != want_canon:
